@@ -149,6 +149,7 @@ type Partial struct {
 	Regress    int               `json:"regress_cases"`
 	RapidOK    bool              `json:"rapid_ok"`
 	Requested  int               `json:"requested"`
+	Enumerated int               `json:"enumerated"`
 }
 
 func safeCheck[C any](check func(C, *Stats) error, c C, st *Stats) (err error) {
@@ -212,6 +213,12 @@ func violation(p *Partial, prop, path, cause string) {
 // function of the case. Before the generated search it replays (strictly) the witnesses of
 // known findings and the regression corpus /verif/regress/<prop>/*.json.
 func Run[C any](t *testing.T, prop string, gen func(*rapid.T) C, check func(C, *Stats) error) {
+	RunPre(t, prop, nil, gen, check)
+}
+
+// RunPre is Run with a list of enumerated cases that shard 0 evaluates exhaustively
+// before the generated search (Partial.Enumerated counts them).
+func RunPre[C any](t *testing.T, prop string, pre []C, gen func(*rapid.T) C, check func(C, *Stats) error) {
 	st := NewStats(prop)
 	part := &Partial{Property: prop}
 	start := time.Now()
@@ -219,6 +226,15 @@ func Run[C any](t *testing.T, prop string, gen func(*rapid.T) C, check func(C, *
 
 	if os.Getenv("VERIF_SKIP_FIXED") == "" {
 		replayCorpus(t, prop, st, part, check)
+		for _, c := range pre {
+			part.Enumerated++
+			if err := safeCheck(check, c, st); err != nil {
+				path := WriteReplay(prop, c, err.Error())
+				violation(part, prop, path, err.Error())
+				t.Fail()
+				break
+			}
+		}
 	}
 	if os.Getenv("VERIF_ONLY_CORPUS") != "" {
 		part.RapidOK = true
